@@ -576,6 +576,8 @@ def check(mod, ctx, args):
     for kid, kf in known_hits.items():
         lines.append("KNOWN-FINDING: property=%s %s" % (mod.ID, kf["text"]))
 
+    if agg["skipped_budget"]:
+        print("NOTE: the wall-clock budget (%ds) ended the batch early: %d of %d planned runs were not started (slow or shared machine); what ran is reported below and in the evidence file" % (ctx.budget_s, agg["skipped_budget"], len(keys)))
     # ---- harness-level failures
     if agg["errors"]:
         for k, tb in agg["errors"][:3]:
